@@ -91,8 +91,14 @@ SimReorg ==
   \E cand \in {{p \in (Fits \ {0}) \X Diffs : Work(from) + p[1] * p[2] > Work(b.hhead)}} :
      cand # {} /\ \E p \in {RandomElement(cand)} : Reorg(from, p[1], p[2])
 SimByz ==
-  \E r \in {RandomElement(1..4)} :
-  \E pool \in {IF r <= 3 /\ (b.hdrs \ a.hdrs) # {} THEN b.hdrs \ a.hdrs ELSE Ids \ {0}} :
+  \E r \in {RandomElement(1..5)} :
+  \* a batch whose first header connects to what A has but whose last does not (its parent is left out):
+  \* nothing of it may be stored
+  \E partial \in {{x \in b.hdrs \ a.hdrs : Height(x) >= 3 /\ MaxHeaders >= 3 /\ AtHeight(x, Height(x) - 3) \in a.hdrs
+                                          /\ AtHeight(x, Height(x) - 1) \notin a.hdrs}} :
+  IF r <= 2 /\ partial # {} THEN (\E x \in {RandomElement(partial)} : Byz(x, 3, 2))
+  ELSE
+  \E pool \in {IF r <= 4 /\ (b.hdrs \ a.hdrs) # {} THEN b.hdrs \ a.hdrs ELSE Ids \ {0}} :
      pool # {} /\
      \E x \in {RandomElement(pool)} :
      \E k \in {RandomElement(1..Min(Min(MaxHeaders, Height(x)), 6))} :
